@@ -220,7 +220,7 @@ impl GenerationalAtomicStorage {
 pub struct Recency<K> {
     mask: MetricKindMask,
     #[allow(clippy::type_complexity)]
-    inner: Mutex<(Clock, HashMap<K, (Generation, Instant)>)>,
+    inner: Mutex<(Clock, [HashMap<K, (Generation, Instant)>; 3])>,
     idle_timeout: Option<Duration>,
 }
 
@@ -241,7 +241,8 @@ where
     /// Refer to the documentation for [`MetricKindMask`](crate::MetricKindMask) for more
     /// information on defining a metric kind mask.
     pub fn new(clock: Clock, mask: MetricKindMask, idle_timeout: Option<Duration>) -> Self {
-        Recency { mask, inner: Mutex::new((clock, HashMap::new())), idle_timeout }
+        let entries = [HashMap::new(), HashMap::new(), HashMap::new()];
+        Recency { mask, inner: Mutex::new((clock, entries)), idle_timeout }
     }
 
     /// Checks if the given counter should be stored, based on its known recency.
@@ -315,6 +316,8 @@ where
             if self.mask.matches(kind) {
                 let mut guard = self.inner.lock().unwrap_or_else(PoisonError::into_inner);
                 let (clock, entries) = guard.deref_mut();
+                // Metrics of different kinds may share a key, so each kind tracks its own entries.
+                let entries = &mut entries[kind as usize];
 
                 let now = clock.now();
                 let deleted = if let Some((last_gen, last_update)) = entries.get_mut(key) {
